@@ -39,12 +39,66 @@ func decodeTime(s string) (t time.Time, err error, pan interface{}, site string)
 			site = fw.PanicSite(3)
 		}
 	}()
-	b := ref.AppendLong(nil, int64(len(s)))
-	b = append(b, s...)
+	// the bytes are written over the previous string's bytes, as in a reader that reuses its block buffer:
+	// whatever the parser remembers about an earlier string must not depend on memory it does not own
+	scratch18 = append(ref.AppendLong(scratch18[:0], int64(len(s))), s...)
 	var v TT
-	rb.Reset(b)
+	rb.Reset(scratch18)
 	err = strCodecT.Read(rb, unsafe.Pointer(&v))
 	return v.T, err, nil, ""
+}
+
+var scratch18 = make([]byte, 0, 256)
+
+// histories: every ordered pair (and, from a smaller set, every triple) of valid timestamps decoded one after
+// the other through the same reused buffer; each result is compared with the standard library.
+func historySet() []string {
+	var out []string
+	for _, d := range []string{"2021-03-01", "2021-03-02", "2021-04-01", "2020-02-29", "1969-12-31", "0001-01-01", "9999-12-31"} {
+		for _, t := range []string{"T00:00:00Z", "T23:59:59.999999999Z", "T12:34:56+05:30", "T12:34:56.5-08:00", "T01:02:03,25+00:00"} {
+			out = append(out, d+t)
+		}
+	}
+	out = append(out, "2021-03-01", "2021-03-02", "1970-01-01")
+	return out
+}
+
+func runHistories(c *fw.Ctx) {
+	set := historySet()
+	check := func(seq []string) {
+		for i, s := range seq {
+			c.Eval(1)
+			got, err, pan, _ := decodeTime(s)
+			want, perr := time.Parse(time.RFC3339, s)
+			if len(s) == 10 {
+				want, perr = time.Parse("2006-01-02", s)
+			}
+			if perr != nil {
+				panic("harness: history set holds an invalid timestamp " + s)
+			}
+			c.NontrivialN(1)
+			_, wo := want.Zone()
+			_, g := got.Zone()
+			if pan != nil || err != nil || !got.Equal(want) || g != wo {
+				c.Violation("wrong-instant|after-history", fmt.Sprintf("timestamp %q decoded as step %d of the history %q gives %s (err=%v panic=%v), the standard library says %s", s, i, seq, got.Format(time.RFC3339Nano), err, pan, want.Format(time.RFC3339Nano)), fmt.Sprint(seq))
+				return
+			}
+		}
+	}
+	for _, a := range set {
+		for _, b := range set {
+			check([]string{a, b})
+		}
+	}
+	small := []string{set[0], set[5], set[7], set[12], set[20], set[35], set[36], set[37]}
+	for _, a := range small {
+		for _, b := range small {
+			for _, d := range small {
+				check([]string{a, b, d})
+			}
+		}
+	}
+	c.Sample(map[string]interface{}{"kind": "histories", "pairs": len(set) * len(set), "triples": len(small) * len(small) * len(small)})
 }
 
 func decodeNullTime(s string) (t null.Time, err error, pan interface{}) {
@@ -351,6 +405,7 @@ func tasks18(tier string) []task18 {
 			c.Sample(map[string]interface{}{"kind": "mutations", "of": v, "distinct_strings": len(seen)})
 		}})
 	}
+	ts = append(ts, task18{"histories-through-a-reused-buffer", runHistories})
 	memo18[tier] = ts
 	return ts
 }
@@ -364,7 +419,7 @@ func init() {
 			if tier == "thorough" {
 				a, l = "{0,1,9}", 12
 			}
-			return fmt.Sprintf("exhaustive grammar product pushed through the public path (string field decoded into time.Time / null.Time by codecs from Schema.Codec): year {0000,0001,1969,1970,2024,9999} × month 01-12 × day {01,28,29,30,31} × hour {00,12,23} × minute,second {00,30,59} × 7 fraction shapes × 11 zones; every fraction digit string over %s of length 1..%d × {'.',','} × 11 zones × 2 base times; 9 digit patterns stretched to 11..45 fraction digits; all date-only strings of the grid; format→parse identity over 6 base times × 8 offsets × 40 nanosecond values (time.Time and null.Time); every truncation and single-character deletion/duplication/substitution (alphabet \"09-:T.,Z+x /\") of 6 valid timestamps; non-trivial = the standard library accepts the string (time.Parse RFC3339 / 2006-01-02) so instant and offset were compared; all strings are checked for panics", a, l)
+			return fmt.Sprintf("exhaustive grammar product pushed through the public path (string field decoded into time.Time / null.Time by codecs from Schema.Codec): year {0000,0001,1969,1970,2024,9999} × month 01-12 × day {01,28,29,30,31} × hour {00,12,23} × minute,second {00,30,59} × 7 fraction shapes × 11 zones; every fraction digit string over %s of length 1..%d × {'.',','} × 11 zones × 2 base times; 9 digit patterns stretched to 11..45 fraction digits; all date-only strings of the grid; format→parse identity over 6 base times × 8 offsets × 40 nanosecond values (time.Time and null.Time); every truncation and single-character deletion/duplication/substitution (alphabet \"09-:T.,Z+x /\") of 6 valid timestamps; every string is decoded from one reused buffer (its bytes overwrite the previous string's), and every ordered pair of 38 valid timestamps and every triple of 8 is decoded as a history; non-trivial = the standard library accepts the string (time.Parse RFC3339 / 2006-01-02) so instant and offset were compared; all strings are checked for panics", a, l)
 		},
 		Assumptions: []string{
 			"time.Parse(time.RFC3339, s) of the toolchain is the oracle: the claim is made only for strings it accepts",
